@@ -28,6 +28,10 @@ Deciding step: complete enumeration of declared finite products on the real impo
 * P  process histories: every sequence of 2..3 database objects (same airports in another
      first-use order so that airport ids differ, other airports, same route) built one after the
      other in ONE process, each database judged on its own;
+* B  batch usage: every sequence of up to 3 (thorough 4) rows from 3 plausible rows and 3 rows that
+     raise inside add() at different depths x three caller usages (commit=False + one final commit
+     carrying on after an exception / stopping at it; commit per row carrying on); the plausible rows
+     add() accepted are judged on what a second connection sees after the caller's commit;
 * M  "same object" histories: every sequence of up to 3 rows from a 7-row alphabet added
      to ONE database (shared airport cache, line-keyed warnings, flight ids), also through
      the file converter.
@@ -76,6 +80,9 @@ ASSUMPTIONS = [
     'schedules.day is compared with the UTC day number of the departure instant (documented in the importer as '
     '"day number since Unix epoch"), reported under its own kind',
     'hours 00-23 / minutes 00-59 only',
+    'a row with an absurd number (|value| >= 1e9 in fltno, seats, times, day offset, distance, stops) is one the '
+    'documentation is silent about: add() may raise, refuse or import it (outcome rule-silent:*), and whatever it left '
+    'behind is not judged; every OTHER row that add() was given is judged on the state the caller committed',
     'cases run inside long-lived workers; a case showing an untagged violation is re-evaluated in a clean process '
     '(child of a zygote forked before the worker ran anything). If it only fails after databases built earlier '
     'in the worker, that history is re-created explicitly (earlier databases + this one as ONE multi-database '
@@ -238,6 +245,20 @@ P_SCRIPTS = {
     'D': [('DEN', 'PHX', 'exact'), ('PHX', 'LAX', 'exact')],  # other airports, west of 90 W
     'E': [('JFK', 'BOS', '+200'), ('BOS', 'JFK', 'exact')],  # same route, first row implausible
 }
+
+# Batch usage with a row that raises inside add().  On the unchanged code these three rows raise
+# (OverflowError) at three different depths: after the airports were written / after the flight record was
+# written / before anything but the airports.  The documentation is silent about them (absurd numbers), so
+# they are not judged; the plausible rows around them are, on what the caller finally committed.
+B_ALPHABET = {
+    'g': dict(o='LAX', d='JFK', efffrom='20190304', effto='20190306'),
+    'h': dict(o='JFK', d='LAX', efffrom='20190304', effto='20190306', deptim='1800', arrtim='2130'),
+    'k': dict(o='DEN', d='PHX', efffrom='20190304', effto='20190306'),
+    'x': dict(o='LAX', d='JFK', seats='9' * 25),  # raises when the flight record is written; airports already known
+    'y': dict(o='SEA', d='SFO', arrday='9999999999'),  # raises after the flight record was written; new airports
+    'z': dict(o='DEN', d='PHX', dist='raw:' + '9' * 400),  # raises in the distance check; airports shared with k
+}
+B_MODES = ['batch-continue', 'batch-abort', 'each-continue']
 
 M_ALPHABET = {
     'A': dict(o='LAX', d='JFK', efffrom='20190304', effto='20190312', days='1 3 5'),
@@ -419,6 +440,20 @@ def sublattices(tier, seed):
         'cases': cases,
     })  # fmt: skip
 
+    # ---- B
+    letters = list(B_ALPHABET)
+    cases = []
+    for via in B_MODES:
+        for n in range(1, (4 if T else 3) + 1):
+            for seq in itertools.product(letters, repeat=n):
+                rows = [make_row(**dict(B_ALPHABET[c], fltno=str(101 + i))) for i, c in enumerate(seq)]
+                cases.append({'sub': 'B', 'year': 2019, 'via': via, 'seq': ''.join(seq), 'rows': rows})
+    subs.append({
+        'name': 'B: every row sequence up to length %d incl. rows that raise inside add(), three caller usages, committed state judged' % (4 if T else 3),
+        'axes': {'row': {k: str(v)[:80] for k, v in B_ALPHABET.items()}, 'length': [1, 2, 3] + ([4] if T else []), 'caller usage': B_MODES},
+        'cases': cases,
+    })  # fmt: skip
+
     # ---- P
     letters = list(P_SCRIPTS)
     cases = []
@@ -511,13 +546,28 @@ def _read_tables(conn):
     return {'airports': sorted(ap.values()), 'flights': flights, 'sched': sched}
 
 
-def _import_add(rows, year):
-    """Public API route.  Returns dict(steps=[...], warnings={line: (type, calc_km)}, tables)."""
+CALLER_MODES = {
+    # via            (commit per row, carry on after add() raised)
+    'add': (True, False),
+    'each-continue': (True, True),
+    'batch-continue': (False, True),  # add(entry, commit=False) ... one commit() at the end, as convert_oag_data does
+    'batch-abort': (False, False),  # stop at the first exception, commit what add() had accepted
+}
+
+
+def _import_add(rows, year, via='add'):
+    """Public API route.  Returns dict(steps=[...], warnings={line: (type, calc_km)}, tables).
+
+    Caller usages other than the default build a database FILE, finish with one commit() and read the
+    tables through a second connection, i.e. exactly what the caller has made durable."""
     from AEIC.missions.oag import CSVEntry, OAGDatabase
 
-    db = OAGDatabase(':memory:', year)
+    per_row, carry_on = CALLER_MODES[via]
+    tmp = None if via == 'add' else tempfile.mkdtemp(prefix='vf_c13_')
+    db = None
     steps = []
     try:
+        db = OAGDatabase(':memory:' if tmp is None else os.path.join(tmp, 'out.sqlite'), year)
         for i, row in enumerate(rows):
             line = i + 2
             e = CSVEntry.from_csv_row(dict(row), line)
@@ -525,21 +575,34 @@ def _import_add(rows, year):
                 steps.append('filtered')
                 continue
             try:
-                ok = db.add(e)
+                ok = db.add(e) if via == 'add' else db.add(e, commit=per_row)
             except Exception as ex:  # classified by the oracle
                 steps.append(f'raise:{type(ex).__name__}:{str(ex)[:160]}')
+                if carry_on:
+                    continue
                 break
             steps.append('added' if ok is True else 'refused' if ok is False else f'returned:{ok!r}')
         warns = {}
         for line, w in db.warnings.items():
             data = w.data or {}
             warns[int(line)] = (str(w.warn_type.value), data.get('calculated_distance_km'))
-        tables = _read_tables(db._conn)
+        if tmp is None:
+            tables = _read_tables(db._conn)
+        else:
+            db.commit()
+            conn = sqlite3.connect(os.path.join(tmp, 'out.sqlite'))
+            try:
+                tables = _read_tables(conn)
+            finally:
+                conn.close()
     finally:
         try:
-            db._conn.close()
+            if db is not None:
+                db._conn.close()
         except Exception:
             pass
+        if tmp is not None:
+            shutil.rmtree(tmp, ignore_errors=True)
     return {'steps': steps, 'warnings': warns, 'tables': tables}
 
 
@@ -679,20 +742,24 @@ def _evaluate_db(rows, year, via):
     for r, e in zip(rows, exps):
         if e.get('margin', 1.0) < BOUNDARY_MARGIN_KM:
             raise HarnessError(f'stated distance within 10 cm of a decision boundary: {r}')
-    obs = _import_add(rows, year) if via == 'add' else _import_file(rows, year)
+    obs = _import_file(rows, year) if via == 'file' else _import_add(rows, year, via)
     vio = []
     outcomes = []
     tables = obs['tables']
     steps = obs['steps']
 
     # -- an exception out of the importer ends the case (later rows are unobserved)
-    raised = None
-    if via == 'add':
-        raised = next((s for s in steps if s.startswith('raise:')), None)
+    # (an exception for a row about which the documentation is silent -- kind 'either' -- is tolerated: the
+    # property does not say such a row must be swallowed; the OTHER rows are judged on what the caller committed)
+    raised = idx = None
+    if via != 'file':
+        for k, s_ in enumerate(steps):
+            if s_.startswith('raise:') and exps[k]['kind'] != 'either':
+                raised, idx = s_, k
+                break
     elif obs.get('crash'):
         raised = obs['crash']
     if raised:
-        idx = len(steps) - 1 if via == 'add' else None
         cls = raised.split(':')[1]
         culprit = rows[idx] if idx is not None else None
         open_rows = [r for r, e in zip(rows, exps) if e['kind'] == 'import' and e['open']]
@@ -731,15 +798,20 @@ def _evaluate_db(rows, year, via):
         )
         fl = by_fltno.get(str(int(row['fltno'])), []) if unique_numbers else tables['flights']
         step = steps[i] if steps is not None and i < len(steps) else None
+        if via not in ('add', 'file'):
+            label += f' [caller usage {via}: add() answers for the {len(rows)} rows were {[x.split(":")[0] + (":" + x.split(":")[1] if x.startswith("raise:") else "") for x in steps]}, then commit()]'
         warn = obs['warnings'].get(line)
         imported = len(fl) > 0
         kind = exp['kind']
+        if via != 'file' and step is None:
+            outcomes.append('not-submitted')  # the caller stopped before this row
+            continue
         if kind == 'import':
             accepted_expected += 1
         if kind == 'either':
             # the documented rules are silent about this spelling: importing and skipping both accepted
-            accepted_expected += 1 if imported else 0
-            outcomes.append('rule-silent:' + ('imported' if imported else 'skipped'))
+            accepted_expected += len(fl)
+            outcomes.append('rule-silent:' + ('raised' if step and step.startswith('raise:') else 'imported' if imported else 'skipped'))
             nontrivial = True
             continue
         # ---- skip decisions
